@@ -41,8 +41,8 @@ MUTANTS = [
 # window mutants (mid-range clauses): below the threshold the old code runs, above it a subtly wrong variant
 MUTANTS += [
     dict(id="c03-win-absmax-drops-tail-5000", prop="C03", file="eqsig/sdof.py",
-         old="def absmax(a, axis=None):\n    amax = a.max(axis)\n    amin = a.min(axis)\n",
-         new="def absmax(a, axis=None):\n"
+         old="def absmax(a, axis=None):\n    a = np.asarray(a, dtype=float)\n    amax = a.max(axis)\n    amin = a.min(axis)\n",
+         new="def absmax(a, axis=None):\n    a = np.asarray(a, dtype=float)\n"
              "    if axis == 1 and a.shape[1] > 5000:  # blocked reduction for long series\n"
              "        nb = a.shape[1] // 4096\n"
              "        blocks = a[:, :nb * 4096].reshape(a.shape[0], nb, 4096)\n"
@@ -149,8 +149,8 @@ MUTANTS += [
              "        return np.cumsum(terms, axis=1)\n",
          why="correct blocked cumulative input energy (window > 6000 samples; rounding differs within the summation bound)"),
     dict(id="c03-win-ok-absmax-blocked", prop="C03", file="eqsig/sdof.py", expect="survive",
-         old="def absmax(a, axis=None):\n    amax = a.max(axis)\n    amin = a.min(axis)\n",
-         new="def absmax(a, axis=None):\n"
+         old="def absmax(a, axis=None):\n    a = np.asarray(a, dtype=float)\n    amax = a.max(axis)\n    amin = a.min(axis)\n",
+         new="def absmax(a, axis=None):\n    a = np.asarray(a, dtype=float)\n"
              "    if axis == 1 and a.shape[1] > 9000:  # blocked reduction for long series\n"
              "        edges = list(range(0, a.shape[1], 4096))\n"
              "        amax = np.max([a[:, e:e + 4096].max(axis=1) for e in edges], axis=0)\n"
@@ -158,4 +158,38 @@ MUTANTS += [
              "        return abs(np.where(-amin > amax, amin, amax))\n"
              "    amax = a.max(axis)\n    amin = a.min(axis)\n",
          why="correct blocked max over time (window > 9000 samples)"),
+]
+
+# ---------------------------------------------------------------------------
+# audit of 2026-09-28 (notes/audit/C03.md): confirmed survivors and reverts of repository fixes; must be caught without the corpus
+MUTANTS += [
+    dict(id="c03-revert-07e02b9-tmin-first-entry", prop="C03", file="eqsig/single.py",
+         old="        periods = np.asarray(self.response_times, dtype=float)\n        min_non_zero_period = np.min(periods[periods > 0])  # the list need not be in ascending order\n",
+         new="        periods = self.response_times\n        if self.response_times[0] != 0:\n            min_non_zero_period = self.response_times[0]\n"
+             "        else:\n            min_non_zero_period = self.response_times[1]\n",
+         why="reverts fix 07e02b9: integration step chosen from the first (non-zero) entry of the period list"),
+    dict(id="c03-audit-tmin-first-nonzero", prop="C03", file="eqsig/single.py",
+         old="        periods = np.asarray(self.response_times, dtype=float)\n        min_non_zero_period = np.min(periods[periods > 0])  # the list need not be in ascending order\n",
+         new="        periods = np.asarray(self.response_times, dtype=float)\n        min_non_zero_period = periods[periods > 0][0]\n",
+         why="audit survivor 1: T_min = first non-zero entry (wrong for non-ascending lists only)"),
+    dict(id="c03-audit-period-list-typeerror", prop="C03", file="eqsig/single.py",
+         old="        periods = np.asarray(self.response_times, dtype=float)\n        min_non_zero_period = np.min(periods[periods > 0])  # the list need not be in ascending order\n",
+         new="        periods = self.response_times\n        min_non_zero_period = np.min(periods[periods > 0])\n",
+         why="audit survivor 4: list / tuple response_times raise TypeError in the object API"),
+    dict(id="c03-audit-sv-lazy-missing", prop="C03", file="eqsig/single.py",
+         old='        """Pseudo maximum response velocities of linear SDOFs"""\n        if not self._cached_response_spectra:\n            self.generate_response_spectrum()\n        return self._s_v',
+         new='        """Pseudo maximum response velocities of linear SDOFs"""\n        return self._s_v',
+         why="audit survivor 2: s_v read first on a fresh object returns None / stale values"),
+    dict(id="c03-audit-sa-lazy-ratio1", prop="C03", file="eqsig/single.py",
+         old='        """Pseudo maximum response accelerations of linear SDOFs"""\n        if not self._cached_response_spectra:\n            self.generate_response_spectrum()\n',
+         new='        """Pseudo maximum response accelerations of linear SDOFs"""\n        if not self._cached_response_spectra:\n            self.generate_response_spectrum(min_dt_ratio=1)\n',
+         why="audit survivor 2: s_a read first integrates the raw record (min_dt_ratio=1) instead of the default ratio 4"),
+    dict(id="c03-revert-39469fd-absmax-int", prop="C03", file="eqsig/sdof.py",
+         old="def absmax(a, axis=None):\n    a = np.asarray(a, dtype=float)\n    amax = a.max(axis)\n",
+         new="def absmax(a, axis=None):\n    amax = a.max(axis)\n",
+         why="reverts fix 39469fd: PGA of an int16 / int32 record whose peak is the dtype's minimum wraps; list records raise"),
+    dict(id="c03-audit-energy-sorts-periods", prop="C03", file="eqsig/sdof.py",
+         old="    if periods is None:\n        periods = acc_signal.response_times\n    if xi is None:\n        xi = 0.05\n    resp_u, resp_v, resp_a = response_series(acc_signal.values, acc_signal.dt, periods, xi)\n    if series:",
+         new="    if periods is None:\n        periods = acc_signal.response_times\n    else:\n        periods = np.sort(periods)\n    if xi is None:\n        xi = 0.05\n    resp_u, resp_v, resp_a = response_series(acc_signal.values, acc_signal.dt, periods, xi)\n    if series:",
+         why="audit item 5: input energy returned in sorted-period order for explicitly given periods"),
 ]
